@@ -3,6 +3,7 @@ import ast
 import re as _re
 
 from ..core import astutil as A
+from ..core import match as M
 from ..core.model import dotted
 
 META = {
@@ -12,6 +13,30 @@ META = {
 }
 MOD = "pkgcore.ebuild.pkg_updates"
 OPS = {ast.GtE: lambda a, b: a >= b, ast.Gt: lambda a, b: a > b, ast.Eq: lambda a, b: a == b, ast.NotEq: lambda a, b: a != b, ast.Lt: lambda a, b: a < b, ast.LtE: lambda a, b: a <= b}
+
+
+def _skips(stmts):
+    """an unconditional `continue` directly in this statement list: every path through the list leaves the iteration"""
+    return any(isinstance(s, ast.Continue) for s in stmts)
+
+
+def _guards(stmts, test, env):
+    """If statements (elif included) below ``stmts`` whose test has the shape ``test``"""
+    p = M.pat(test)
+    return [n for n in A.walk_body(stmts) if isinstance(n, ast.If) and p.matches(n.test, env)]
+
+
+def _effects(stmts, names=("mods", "moved")):
+    """nodes below ``stmts`` that change the bookkeeping tables: mutator calls on / stores into something reached from them"""
+    out = []
+    for n in A.walk_body(stmts):
+        if isinstance(n, ast.Call) and isinstance(n.func, ast.Attribute) and n.func.attr in ("append", "extend", "appendleft", "extendleft", "insert", "update", "setdefault", "pop", "clear") and A.names_in(n.func.value) & set(names):
+            out.append(n)
+        elif isinstance(n, (ast.Assign, ast.AugAssign, ast.AnnAssign, ast.Delete)):
+            tg = n.targets if isinstance(n, (ast.Assign, ast.Delete)) else [n.target]
+            if any(isinstance(t, (ast.Subscript, ast.Attribute)) and A.names_in(t) & set(names) for t in tg):
+                out.append(n)
+    return out
 
 
 def run(ctx):
@@ -27,27 +52,45 @@ def run(ctx):
                 if isinstance(k, ast.Constant) and k.value == "update_regex" and isinstance(v, ast.Call) and dotted(v.func) == "re.compile" and isinstance(v.args[0], ast.Constant):
                     regs.add(v.args[0].value)
     ctx.require(regs, "eapi.py: update_regex literals not found")
-    keys = [(t, v) for t, v, _ in A.assignments(sd.node, "key")]
-    has_key = ctx.check("R1", sd, len(keys) == 1 and isinstance(keys[0][1], ast.IfExp), "chronological-key-present", "update files get a (year, quarter) sort key",
+    # locals by role: $fn the listed name, $m its regex match, $files the collected list, $key the sort key
+    lp = M.one(sd.node, "for $fn in listdir_files(path):\n    $m = eapi.options.update_regex.match($fn)")
+    E = dict(lp.env) if lp else {}
+    gm = M.one(lp.node, "if $m is not None:\n    $files.append($_)", E) if lp else None
+    if gm:
+        E = dict(gm.env)
+    km = M.one(lp.node, "if $m is not None:\n    $key = $$kv\n    $files.append(($key, $fn))", E) if lp else None
+    ife = km.env["$kv"] if km else None
+    has_key = ctx.check("R1", sd, km is not None and isinstance(ife, ast.IfExp) and len(A.assignments(sd.node, km["key"])) == 1, "chronological-key-present", "update files get a (year, quarter) sort key",
                         "_scan_directory computes no chronological sort key: quarter-named update files are applied in listing / plain name order (1Q-2020 before 4Q-2019)", node=sd.node)
     if has_key:
-        _key_rules(ctx, sd, keys, regs)
-    t = A.unparse(sd.node)
-    ctx.check("R1", sd, "files.append((key, filename))" in t and "return [filename for _key, filename in sorted(files)]" in t.replace("(_key, filename)", "_key, filename"), "sorted-by-key", "files are returned sorted by (key, name): listing order cannot matter")
-    ctx.check("R1", sd, "if match is not None" in t and "logger.error" in t, "misnamed-skipped", "files not matching the regex are skipped")
+        _key_rules(ctx, sd, ife, regs, E)
+    rets = A.returns(sd.node)
+    rm = M.one(sd.node, "return [$f2 for $k2, $f2 in sorted($files)]", km.env) if km else None
+    ctx.check("R1", sd, rm is not None and rm["f2"] != rm["k2"] and len(rets) == 1, "sorted-by-key", "files are returned sorted by (key, name): listing order cannot matter")
+    apps = M.find(sd.node, "$files.append($_)", E) if gm else []
+    guarded = [a for a in apps if any(isinstance(p, ast.If) and M.pat("$m is not None").matches(p.test, E) and any(A.contains_node(s, a.node) for s in p.body) for p in A.parents(a.node))]
+    ctx.check("R1", sd, bool(apps) and len(guarded) == len(apps), "misnamed-skipped", "files not matching the regex are skipped")
     ctx.floor("R1", 6)
 
     # ---- R2 moved map spans files ----------------------------------------------------------------------
     ru = P.func(MOD, "read_updates")
     pu = P.func(MOD, "_process_updates")
-    mv = [st for t_, v, st in A.assignments(ru.node, "moved")]
-    loops = [n for n in A.body_walk(ru.node) if isinstance(n, ast.For)]
-    ctx.require(loops, "read_updates: file loop not found")
-    calls = [c for c in A.calls(loops[0]) if dotted(c.func) == "_process_updates"]
+    loop = M.one(ru.node, "for $fp in _scan_directory(path, eapi):\n    ...")
+    ctx.require(loop is not None, "read_updates: file loop not found")
+    loop = loop.node
+    calls = [c for c in A.calls(loop) if dotted(c.func) == "_process_updates"]
     ctx.require(len(calls) == 1, "read_updates: _process_updates call not found")
-    ok = len(mv) == 1 and mv[0] in ru.node.body and mv[0].lineno < loops[0].lineno and len(calls[0].args) == 4 and A.unparse(calls[0].args[3]) == "moved" and A.unparse(calls[0].args[2]) == "mods"
-    ctx.check("R2", ru, ok, "moved-created-once-passed-always", "one `moved` map (and one `mods` table) is created before the file loop and handed to every file",
-              "read_updates no longer shares one `moved` map across files: a redundant move in a LATER file than the original move is applied again", node=calls[0])
+    call = calls[0]
+    shared = {}
+    if len(call.args) == 4 and not call.keywords:
+        for role, a in (("mods", call.args[2]), ("moved", call.args[3])):
+            if isinstance(a, ast.Name):
+                made = [st for t_, v, st in A.assignments(ru.node, a.id)]
+                if len(made) == 1 and made[0] in ru.node.body and made[0].lineno < loop.lineno:
+                    shared[role] = a.id
+    ctx.check("R2", ru, len(shared) == 2 and shared["mods"] != shared["moved"], "moved-created-once-passed-always", "one `moved` map (and one `mods` table) is created before the file loop and handed to every file",
+              "read_updates no longer shares one `moved` map across files: a redundant move in a LATER file than the original move is applied again", node=call)
+    ctx.require([a.arg for a in pu.node.args.args[2:4]] == ["mods", "moved"], "_process_updates: parameters (…, mods, moved) not found")
     rebound = [st for t_, v, st in A.assignments(pu.node, "moved")]
     dflt = pu.node.args.defaults
     ctx.check("R2", pu, not rebound and not dflt, f"moved-never-rebound:{len(rebound)}+{len(dflt)}", "_process_updates neither defaults nor rebinds `moved`",
@@ -55,35 +98,40 @@ def run(ctx):
     ctx.floor("R2", 2)
 
     # ---- R3 fresh checkpoint -----------------------------------------------------------------------------
-    mvif = [n for n in A.body_walk(pu.node) if isinstance(n, ast.If) and A.unparse(n.test) == "line[0] == 'move'"]
+    # locals by role: $line the split fields, $src/$trg the move atoms, $d the checkpoint deque
+    mvif = _guards(pu.node.body, "$line[0] == 'move'", {})
     ctx.require(len(mvif) == 1, "_process_updates: move branch not found")
-    mb = mvif[0].body
-    ext = [c for s in mb for c in A.calls(s) if A.call_attr(c) == "extend" and A.unparse(c.func.value) == "mods[src.key][1]"]
-    ctx.require(len(ext) == 1 and isinstance(ext[0].args[0], ast.List) and len(ext[0].args[0].elts) == 2, "_process_updates: chain extension of the move source not found")
-    link = ext[0].args[0].elts[1]
-    fresh = isinstance(link, ast.Name) and any(isinstance(s, ast.Assign) and A.unparse(s.targets[0]) == link.id and A.unparse(s.value) == "deque()" and s.lineno < ext[0].lineno for s in mb)
+    mvif = mvif[0]
+    mb = mvif.body
+    L = dict(M.pat("$line[0] == 'move'").matches(mvif.test).env)
+    at = M.one(mb, "$src, $trg = (atom($line[1]), atom($line[2]))", L)
+    ctx.require(at is not None, "_process_updates: construction of the move's source and target atoms not found")
+    EM = dict(at.env)
+    ext = M.find(mb, "mods[$src.key][1].extend([$$rec, $$link])", EM)
+    ctx.require(len(ext) == 1, "_process_updates: chain extension of the move source not found")
+    ext, rec, link = ext[0].node, ext[0].env["$rec"], ext[0].env["$link"]
+    fresh = isinstance(link, ast.Name) and M.has(mb, "$d = deque()\nmods[$src.key][1].extend([$_, $d])", dict(EM, d=link.id))
     ctx.check("R3", pu, fresh, f"links-fresh-checkpoint:{A.unparse(link)[:30]}", "the source's chain continues in a deque created for this move",
-              f"the move source's chain is linked to `{A.unparse(link)}`, an existing deque of the target: the source also picks up commands recorded for the target BEFORE it became a move target (and move cycles make the structure self-referential)", node=ext[0])
-    ctx.check("R3", pu, A.unparse(ext[0].args[0].elts[0]) == "('move', src, trg)", "move-recorded", "the move itself is recorded in the source's chain")
+              f"the move source's chain is linked to `{A.unparse(link)}`, an existing deque of the target: the source also picks up commands recorded for the target BEFORE it became a move target (and move cycles make the structure self-referential)", node=ext)
+    ctx.check("R3", pu, M.pat("('move', $src, $trg)").matches(rec, EM) is not None, "move-recorded", "the move itself is recorded in the source's chain")
     if fresh:
-        seq = [A.unparse(s) for s in mb]
-        i1 = next((i for i, s in enumerate(seq) if s == f"mods[trg.key][1].append({link.id})"), None)
-        i2 = next((i for i, s in enumerate(seq) if s == f"mods[trg.key][1] = {link.id}"), None)
-        ctx.check("R3", pu, i1 is not None and i2 is not None and i1 < i2, "checkpoint-opened-in-target", "the same deque is appended to the target's tail and becomes the target's new tail (later target commands land in it)",
-                  "the new checkpoint is not installed as the target's tail: commands recorded for the target after the move are not seen through the source", node=mvif[0])
+        ctx.check("R3", pu, M.has(mb, "mods[$trg.key][1].append($d)\nmods[$trg.key][1] = $d", dict(EM, d=link.id)), "checkpoint-opened-in-target", "the same deque is appended to the target's tail and becomes the target's new tail (later target commands land in it)",
+                  "the new checkpoint is not installed as the target's tail: commands recorded for the target after the move are not seen through the source", node=mvif)
     ctx.floor("R3", 3)
 
     # ---- R4 redundant moves -------------------------------------------------------------------------------
-    sm = mvif[0].orelse[0] if mvif[0].orelse and isinstance(mvif[0].orelse[0], ast.If) else None
-    ctx.require(sm is not None and A.unparse(sm.test) == "line[0] == 'slotmove'", "_process_updates: slotmove branch not found")
-    for name, body in (("move", mb), ("slotmove", sm.body)):
-        guards = [s for s in A.walk(ast.Module(body=body, type_ignores=[])) if isinstance(s, ast.If) and A.unparse(s.test) == "src.key in moved"]
-        effects = [c for s in body for c in A.calls(s) if A.call_attr(c) in ("extend", "append") and "mods[" in A.unparse(c.func)]
-        ok = len(guards) == 1 and isinstance(guards[0].body[-1], ast.Continue) and effects and all(guards[0].lineno < c.lineno for c in effects)
+    sm = next((s for s in mvif.orelse if isinstance(s, ast.If) and M.pat("$line[0] == 'slotmove'").matches(s.test, L)), None)
+    ctx.require(sm is not None, "_process_updates: slotmove branch not found")
+    at2 = M.one(sm.body, "$src = atom($line[1])", L)
+    ctx.require(at2 is not None, "_process_updates: construction of the slotmove's source atom not found")
+    ES = dict(at2.env)
+    for name, body, env in (("move", mb, EM), ("slotmove", sm.body, ES)):
+        guards = _guards(body, "$src.key in moved", env)
+        effects = _effects(body)
+        ok = len(guards) == 1 and _skips(guards[0].body) and effects and all(guards[0].lineno < c.lineno for c in effects)
         ctx.check("R4", pu, ok, f"redundant-skipped:{name}", f"{name}: an already-moved source is skipped before anything is recorded",
                   f"{name} of an already-moved name is no longer skipped before recording", node=body[0])
-    st = [s for s in mb if isinstance(s, ast.Assign) and A.unparse(s.targets[0]) == "moved[src.key]"]
-    ctx.check("R4", pu, len(st) == 1 and A.unparse(st[0].value) == "trg" and not any(A.unparse(t_) == "moved[src.key]" for t_, v, _ in A.assignments(ast.Module(body=sm.body, type_ignores=[]))), "moved-recorded-by-moves-only", "only a move marks its source as moved")
+    ctx.check("R4", pu, M.count(mb, "moved[$src.key] = $trg", EM) == 1 and len(_effects(mb, ("moved",))) == 1 and not _effects(sm.body, ("moved",)), "moved-recorded-by-moves-only", "only a move marks its source as moved")
     ctx.floor("R4", 3)
 
     # ---- R5 malformed lines skipped -----------------------------------------------------------------------------
@@ -93,30 +141,45 @@ def run(ctx):
             continue
         n_at += 1
         tr = next((p for p in A.parents(c) if isinstance(p, ast.Try) and any(A.contains_node(s, c) for s in p.body)), None)
-        ok = tr is not None and any(h.type is not None and "MalformedAtom" in A.unparse(h.type) and isinstance(h.body[-1], ast.Continue) for h in tr.handlers)
+        ok = tr is not None and any(h.type is not None and "MalformedAtom" in A.unparse(h.type) and _skips(h.body) for h in tr.handlers)
         ctx.check("R5", pu, ok, f"malformed-atom-skipped:{A.unparse(c)[:30]}", f"`{A.unparse(c)[:40]}`: a malformed atom logs and skips the line",
                   f"`{A.unparse(c)}` is not under a MalformedAtom handler: a malformed atom in an updates file raises out of read_updates instead of the line being skipped", node=c)
     ctx.check("R5", pu, n_at >= 5, f"atom-sites:{n_at}", f"{n_at} atom constructions inspected")
-    for cond, what in (("len(line) != 3", "move field count"), ("len(line) != 4", "slotmove field count"), ("src.fullver is not None", "versioned move source"), ("trg.fullver is not None", "versioned move target"), ("src.slot is not None", "slotted slotmove source"), ("not line", "empty line")):
-        ifs = [n for n in A.walk(pu.node) if isinstance(n, ast.If) and A.unparse(n.test) == cond]
-        ctx.check("R5", pu, len(ifs) == 1 and isinstance(ifs[0].body[-1], ast.Continue), f"bad-line-skipped:{cond}", f"{what}: logged and skipped", f"a line with {what} is no longer skipped", node=pu.node)
-    els = sm.orelse
-    ctx.check("R5", pu, len(els) == 1 and "unknown command" in A.unparse(els[0]) and not any(A.call_attr(c) in ("append", "extend") for c in A.calls(els[0])), "unknown-command-ignored", "an unknown command is logged and has no effect")
+    raw = M.one(pu.node, "for $no, $raw in enumerate(sequence, 1):\n    $stripped = $raw.strip()")
+    for tag, scope, test, env, what in (
+        ("len(line) != 3", mb, "len($line) != 3", L, "move field count"),
+        ("len(line) != 4", sm.body, "len($line) != 4", L, "slotmove field count"),
+        ("src.fullver is not None", mb, "$src.fullver is not None", EM, "versioned move source"),
+        ("trg.fullver is not None", mb, "$trg.fullver is not None", EM, "versioned move target"),
+        ("src.slot is not None", sm.body, "$src.slot is not None", ES, "slotted slotmove source"),
+        ("not line", pu.node.body, "not $stripped", raw.env if raw else None, "empty line"),
+    ):
+        ifs = _guards(scope, test, env) if env is not None else []
+        ctx.check("R5", pu, len(ifs) == 1 and _skips(ifs[0].body), f"bad-line-skipped:{tag}", f"{what}: logged and skipped", f"a line with {what} is no longer skipped", node=pu.node)
+    inside = [e for e in _effects(mb) + _effects(sm.body)]
+    stray = [e for e in _effects(pu.node.body) if not any(e is i for i in inside)]
+    ctx.check("R5", pu, not stray, "unknown-command-ignored", "an unknown command has no effect: nothing is recorded outside the move and slotmove branches")
     ctx.floor("R5", 12)
 
     # ---- R6 flattening ---------------------------------------------------------------------------------------------
-    t = A.unparse(ru.node)
-    ctx.check("R6", ru, "{k: list(iflatten_instance(v[0], tuple)) for k, v in mods.items()}" in t.replace("(k, v)", "k, v"), "flatten-from-start", "a name's commands are the flattening of its chain from its start point")
-    ctx.check("R6", ru, "{k: v for k, v in commands.items() if v}" in t.replace("(k, v)", "k, v"), "empty-dropped", "names without commands are dropped")
-    ctx.check("R6", ru, "return [d, d]" in t and "mods = defaultdict(f)" in t, "start-equals-tail-initially", "a new name starts with start == tail")
-    ctx.check("R6", pu, "mods[src.key][1].append(('slotmove', src_slot, line[3]))" in A.unparse(pu.node), "slotmove-recorded", "a slotmove is recorded at the source's tail")
+    fm = M.one(ru.node, "$mods = defaultdict($f)")  # the table by role: the defaultdict built from the start/tail factory
+    mods = fm["mods"] if fm else None
+    fl = M.one(ru.node, "$c = {$k: list(iflatten_instance($v[0], tuple)) for $k, $v in $mods.items()}", {"mods": mods}) if mods else None
+    ctx.check("R6", ru, fl is not None and fl["k"] != fl["v"], "flatten-from-start", "a name's commands are the flattening of its chain from its start point")
+    ctx.check("R6", ru, M.has(ru.node, "$c = {$_: $_ for $k, $v in $mods.items()}\n$c2 = {$k2: $v2 for $k2, $v2 in $c.items() if $v2}\nreturn $c2", {"mods": mods} if mods else None), "empty-dropped", "names without commands are dropped")
+    defs = [s for s in ru.node.body if isinstance(s, ast.FunctionDef)]
+    # the factory is the nested def the defaultdict argument names; the name is rebound later (`with ... as f`), so when no def
+    # of that spelling exists the only nested def is taken
+    fac = [d for d in defs if fm and d.name == fm["f"]] or (defs if len(defs) == 1 else [])
+    ctx.check("R6", ru, fm is not None and len(call.args) >= 3 and M.pat("$mods").matches(call.args[2], {"mods": mods}) is not None and len(fac) == 1 and M.pat("def $g():\n    $d = deque()\n    return [$d, $d]").matches(fac[0]) is not None and len(A.returns(fac[0])) == 1, "start-equals-tail-initially", "a new name starts with start == tail")
+    sl = M.one(sm.body, "$slot = atom(f'{$src}:{$line[2]}')", ES)
+    ctx.check("R6", pu, sl is not None and M.has(sm.body, "mods[$src.key][1].append(('slotmove', $slot, $line[3]))", sl.env), "slotmove-recorded", "a slotmove is recorded at the source's tail")
     ctx.floor("R6", 4)
 
 
-def _key_rules(ctx, sd, keys, regs):
-    ife = keys[0][1]
+def _key_rules(ctx, sd, ife, regs, E):
     test = ife.test
-    ctx.require(isinstance(test, ast.Compare) and A.unparse(test.left) == "match.re.groups" and isinstance(test.comparators[0], ast.Constant) and type(test.ops[0]) in OPS, f"_scan_directory: sort key guard `{A.unparse(test)}` not understood")
+    ctx.require(isinstance(test, ast.Compare) and M.pat("$m.re.groups").matches(test.left, E) is not None and isinstance(test.comparators[0], ast.Constant) and type(test.ops[0]) in OPS, f"_scan_directory: sort key guard `{A.unparse(test)}` not understood")
     for rx_ in sorted(regs):
         g = _re.compile(rx_).groups  # group count of a literal: compiling a constant pattern, nothing of pkgcore runs
         taken = OPS[type(test.ops[0])](g, test.comparators[0].value)
@@ -126,7 +189,7 @@ def _key_rules(ctx, sd, keys, regs):
                   f"for update_regex {rx_!r} ({g} groups) the guard `{A.unparse(test)}` is {taken}: " + ("quarter-named files get no (year, quarter) key and are applied in plain filename order (1Q-2020 before 4Q-2019)" if quarter else "group(2) does not exist for this regex"), node=ife)
     q = [r for r in regs if _re.compile(r).groups >= 2]
     ctx.check("R1", sd, len(q) == 1 and q[0] == "^([1-4])Q-(\\d{4})$", "quarter-regex", "the quarter form is <quarter>Q-<year>: group 1 quarter, group 2 year")
-    ctx.check("R1", sd, A.unparse(ife.body) == "(match.group(2), match.group(1))", "year-then-quarter", "the key is (year, quarter)", f"the chronological key is `{A.unparse(ife.body)}`, not (year, quarter)", node=ife)
+    ctx.check("R1", sd, M.pat("($m.group(2), $m.group(1))").matches(ife.body, E) is not None, "year-then-quarter", "the key is (year, quarter)", f"the chronological key is `{A.unparse(ife.body)}`, not (year, quarter)", node=ife)
 
 
 F = "src/pkgcore/ebuild/pkg_updates.py"
